@@ -114,7 +114,8 @@ def check_expr_mode(expr, mode, only_assign=None):
         exp = R3.outcome(R3.state(tt, a))
         case = {"expr": expr, "assign": a, "mode": mode}
         r = I.try_call(lambda: M.run(mode, lambda: I.requirement_constraint_evaluation(expr), rc=a,
-                                     fc={k: (True, None) for k in fckeys}, hints={k: f"Hinweis {k}" for k in hkeys}))
+                                     fc={k: (True, None) for k in fckeys},
+                                     hints={k: (f"Hinweis {k}" if i % 2 == 0 else "") for i, k in enumerate(hkeys)}))  # '' is a legal text
         if r[0] == "exc":
             out.append({"kind": "evaluation-raised/" + mode, "case": case, "expected": list(exp), "observed": r[1], "msg": expr})
         elif (r[1].requirement_constraints_fulfilled, r[1].requirement_is_conditional) != exp:
